@@ -50,6 +50,17 @@
 (* and the installation make no difference between kinds: a decorative series is a      *)
 (* function of the solved ones, but its CLASS is its own (gap = debt - target: the same   *)
 (* absolute drift at a small level fails the relative test that the large stock passes). *)
+(*                                                                                    *)
+(* Time.  The search runs its copy along the time axis k = -T..0 (FreezeExogenous        *)
+(* builds it AFTER freezing the exogenous series - k is one of them), so that the state  *)
+(* it tests and installs belongs to k = 0.  A series may depend on time (`tdep`):        *)
+(*   "none"     its equation mentions neither k nor t                                   *)
+(*   "settled"  it mentions k or t, but only through a schedule / dated switch that is    *)
+(*              over before the last periods of the search (same value for all k >= -M)  *)
+(*   "trend"    it keeps changing with k (20*pow(1.02, k)): never steady                *)
+(* The class of a series is the one it has on the proper axis.  If the axis is a         *)
+(* constant (-T in every period) a time-dependent series is seen at rest, at a level      *)
+(* that is no rest point at k = 0.                                                       *)
 (* The operators JudgeBad / SteadyClass and the actions are the single source of truth *)
 (* for Steady_Trace.                                                                   *)
 EXTENDS Integers, Sequences, FiniteSets, TLC
@@ -57,9 +68,13 @@ EXTENDS Integers, Sequences, FiniteSets, TLC
 CONSTANTS
     Schemes,         \* the systems of the bounded instance: set of records
                      \*   [id, names : sequence of names (one per series), kinds : sequence of kinds,
+                     \*    tdep : sequence of time dependences,
                      \*    grid : sequence, grid[i] = set of classes series i may end in,
                      \*    excls : set of sets of names the user may exclude]
     AllowMalformed,  \* BOOLEAN: also systems that are not well formed (Run may fail with any exception)
+    AsFound_TimeAxisFrozen,
+                     \* TRUE: a seeded variant: the axis -T..0 is built BEFORE the loop that freezes every exogenous
+                     \*       series, which then overwrites it with the constant -T.  FALSE: the code.
     AsFound_DecorativeUntested,
                      \* TRUE: a seeded variant: a decorative series is installed without being tested.
     AsFound_DecorativeExcluded,
@@ -138,7 +153,8 @@ SkippedSet(nms, kds, opt) ==
     { v \in 1..Len(nms) : SkipsName(nms[v], opt) \/ (AsFound_DecorativeExcluded /\ kds[v] = "decorative") }
 
 Outer0  == [eq |-> 1, exo |-> 1, hor |-> 1]
-NoCopy  == [eq |-> 0, exo |-> 0, hor |-> 0]
+NoCopy  == [eq |-> 0, exo |-> 0, hor |-> 0, axis |-> "none"]
+TDeps   == {"none", "settled", "trend"}
 FrozenExo == 2      \* identity of "every exogenous series constant at its k=0 value"
 SearchHor == 2      \* identity of the search horizon T
 
@@ -147,6 +163,7 @@ VARIABLES
     n,          \* number of series of the system
     names,      \* sequence (length n) of the names of the series
     kinds,      \* sequence (length n) of their kinds
+    tdep,       \* sequence (length n) of their time dependences
     option,     \* ParameterInitialSteadyStateExcludedVariables: a set of names
     excluded,   \* subset of 1..n: the series the acceptance loop skips
     sid,        \* id of the scheme the system was taken from (0: none)
@@ -159,13 +176,13 @@ VARIABLES
     outer,      \* snapshot of the solver that is being initialised
     inner       \* the same three identities of the copy the search works on
 
-sys  == << n, names, kinds, option, excluded, wf, sid >>      \* the system and the option: never change
+sys  == << n, names, kinds, tdep, option, excluded, wf, sid >>      \* the system and the option: never change
 vars == << phase, sys, runres, cls, judged, bad, exc, outer, inner >>
 
 Min(S) == CHOOSE x \in S : \A y \in S : x <= y
 
-Setup(nms, kds, opt, w, id) ==
-    /\ phase = "idle" /\ n = Len(nms) /\ names = nms /\ kinds = kds /\ option = opt /\ wf = w /\ sid = id
+Setup(nms, kds, tds, opt, w, id) ==
+    /\ phase = "idle" /\ n = Len(nms) /\ names = nms /\ kinds = kds /\ tdep = tds /\ option = opt /\ wf = w /\ sid = id
     /\ excluded = SkippedSet(nms, kds, opt)
     /\ runres = "none" /\ cls = << >> /\ judged = {} /\ bad = {} /\ exc = ""
     /\ outer = Outer0 /\ inner = NoCopy
@@ -174,18 +191,19 @@ MinId == Min({ s.id : s \in Schemes })
 Init == \E s \in Schemes, w \in (IF AllowMalformed THEN BOOLEAN ELSE {TRUE}) :
           \E ex \in s.excls :
             /\ (~w => (s.id = MinId /\ ex = {}))      \* one malformed system is enough
-            /\ Setup(s.names, s.kinds, OptionOf(ex), w, s.id)
+            /\ Setup(s.names, s.kinds, s.tdep, OptionOf(ex), w, s.id)
 
 Copy ==
     /\ phase = "idle"
     /\ phase' = "copied"
-    /\ inner' = outer
+    /\ inner' = [eq |-> outer.eq, exo |-> outer.exo, hor |-> outer.hor, axis |-> "outer"]
     /\ UNCHANGED << sys, runres, cls, judged, bad, exc, outer >>
 
 FreezeExogenous ==
     /\ phase = "copied"
     /\ phase' = "frozen"
-    /\ inner' = [inner EXCEPT !.exo = FrozenExo, !.hor = SearchHor]
+    /\ inner' = [inner EXCEPT !.exo = FrozenExo, !.hor = SearchHor,
+                               !.axis = IF AsFound_TimeAxisFrozen THEN "frozen" ELSE "search"]
     /\ UNCHANGED << sys, runres, cls, judged, bad, exc, outer >>
 
 Run(res, c) ==
@@ -199,6 +217,13 @@ Run(res, c) ==
     /\ cls' = c
     /\ UNCHANGED << sys, judged, bad, exc, outer, inner >>
 
+(* the class the acceptance loop gets to see: on a constant time axis a time-dependent series is at rest *)
+Seen(v) == IF inner.axis = "frozen" /\ tdep[v] # "none"
+           THEN [cls[v] EXCEPT !.drift = "zero", !.last = cls[v].prev, !.stays = TRUE]
+           ELSE cls[v]
+(* the level the search ended at belongs to k = 0 *)
+RestAtK0(v) == tdep[v] = "none" \/ inner.axis = "search"
+
 ToJudge == ((1..n) \ excluded) \ judged
 
 Judge(v) ==
@@ -208,7 +233,7 @@ Judge(v) ==
     /\ v = Min(ToJudge)                 \* the loop runs over the series in a fixed order
     /\ phase' = "judging"
     /\ judged' = judged \cup {v}
-    /\ bad' = IF JudgeBad(cls[v]) /\ ~(AsFound_DecorativeUntested /\ kinds[v] = "decorative")
+    /\ bad' = IF JudgeBad(Seen(v)) /\ ~(AsFound_DecorativeUntested /\ kinds[v] = "decorative")
               THEN bad \cup {v} ELSE bad
     /\ UNCHANGED << sys, runres, cls, exc, outer, inner >>
 
@@ -265,7 +290,7 @@ NonExcluded == { v \in 1..n : ~IsExcludedName(names[v], option) }
 
 (* every series that is not on the exclusion list has been judged (and thereby installed) and is steady *)
 C15_AcceptedIsSteady ==
-    phase = "installed" => \A v \in NonExcluded : (v \in judged /\ SteadyClass(cls[v]))
+    phase = "installed" => \A v \in NonExcluded : (v \in judged /\ SteadyClass(cls[v]) /\ RestAtK0(v))
 
 (* the judged set is exactly the set of non-excluded series *)
 C15_JudgesExactlyNonExcluded ==
@@ -279,7 +304,7 @@ C15_LeavesSolverUntouched == [][outer' = outer]_vars
 
 TypeOK ==
     /\ phase \in {"idle", "copied", "frozen", "ran", "judging", "installed", "rejected", "raised"}
-    /\ n = Len(names) /\ n = Len(kinds) /\ \A i \in 1..n : kinds[i] \in Kinds
+    /\ n = Len(names) /\ n = Len(kinds) /\ n = Len(tdep) /\ (\A i \in 1..n : tdep[i] \in TDeps) /\ \A i \in 1..n : kinds[i] \in Kinds
     /\ excluded \subseteq 1..n
     /\ runres \in {"none", "ok", "conv", "valerr", "other"}
     /\ (runres = "ok") => (Len(cls) = n /\ \A i \in 1..n : cls[i] \in AllClasses)
